@@ -9,6 +9,7 @@ pub mod c03;
 pub mod c04;
 pub mod c07;
 pub mod c09;
+pub mod c10;
 pub mod c12;
 pub mod c13;
 
@@ -20,6 +21,7 @@ pub fn run(id: &str, tier: Tier, seed: u64) -> Option<i32> {
         "C04" => c04::run(tier, seed),
         "C07" => c07::run(tier, seed),
         "C09" => c09::run(tier, seed),
+        "C10" => c10::run(tier, seed),
         "C12" => c12::run(tier, seed),
         "C13" => c13::run(tier, seed),
         _ => return None,
@@ -33,13 +35,23 @@ pub fn universe_by_tag(_tag: &str) -> Option<Uni> {
 
 /// Replay of case kinds private to single checks. Returns the number of violations reproduced.
 pub fn replay(prop: &str, case: &serde_json::Value) -> Result<u64, String> {
-    Err(format!("no replay handler for property {prop} case kind {:?}", case["kind"]))
+    match case["kind"].as_str().unwrap_or("") {
+        "contains" => {
+            // the scalar path is latched per process through the environment
+            if case["mode"] == "scalar" && std::env::var("WIREFILTER_USE_AVX2").ok().as_deref() != Some("0") {
+                return Err("RE-EXEC-SCALAR".into());
+            }
+            c10::replay(case)
+        }
+        _ => Err(format!("no replay handler for property {prop} case kind {:?}", case["kind"])),
+    }
 }
 
 /// Subprocess entry points (isolation of runs that may kill the process).
 pub fn worker(args: &[String]) -> i32 {
     match args.first().map(|s| s.as_str()) {
         Some("c13deep") => c13::worker_deep(),
+        Some("c10") => c10::worker(&args[1..]),
         other => {
             eprintln!("unknown worker {other:?}");
             2
